@@ -9,8 +9,14 @@ import (
 
 // postDominatesSuccess: every path from instruction `from` to a normal return passes through `must`.
 func everyPathPasses(fn *ssa.Function, from ssa.Instruction, must ssa.Instruction) bool {
-	if from.Block() == must.Block() && instrIndex(from) < instrIndex(must) {
-		return true
+	if from.Block() == must.Block() {
+		if instrIndex(from) < instrIndex(must) {
+			return true
+		}
+		// `must` precedes `from` in the same block: a return at the end of this very block is reached without passing it
+		if exitKind(from.Block()) == "return" {
+			return false
+		}
 	}
 	// DFS from from.Block()'s successors avoiding must.Block(); if a return block is reachable → false
 	seen := map[*ssa.BasicBlock]bool{}
